@@ -28,15 +28,15 @@ import (
 
 // TaskSpec describes one task role of a generated workflow.
 type TaskSpec struct {
-	Name     string // role name
-	Class    string // task class name (file tasks/<class>.yaml)
-	Mode     string // direct | fairmq | basic | hook
-	Critical bool
-	Host     string // machine_id constraint ("" = anywhere)
-	Trigger  string // for hooks
-	Extra    string // extra YAML lines of the role (indented 4 spaces)
+	Name       string // role name
+	Class      string // task class name (file tasks/<class>.yaml)
+	Mode       string // direct | fairmq | basic | hook
+	Critical   bool
+	Host       string // machine_id constraint ("" = anywhere)
+	Trigger    string // for hooks
+	Extra      string // extra YAML lines of the role (indented 4 spaces)
 	ClassExtra string // extra YAML of the task class (top level)
-	Cpu, Mem float64
+	Cpu, Mem   float64
 	// Group, if not empty, nests the role inside an aggregator role of that name
 	// (consecutive tasks with the same Group share one aggregator): root -> group -> role.
 	Group string
@@ -56,7 +56,7 @@ type WorkflowSpec struct {
 }
 
 var (
-	fixDir   string
+	fixDir     string
 	fixWritten = map[string]bool{}
 )
 
@@ -258,20 +258,21 @@ func (c *capWriter) Close() {}
 
 // World is one execution's closed system.
 type World struct {
-	M    *Master
-	Core *core.VerifCore
-	Life int
-	EnvEvents []EnvEvent
-	RunEvents []*evpb.Ev_RunEvent
+	M          *Master
+	Core       *core.VerifCore
+	Life       int
+	EnvEvents  []EnvEvent
+	RunEvents  []*evpb.Ev_RunEvent
 	RunEventTS []time.Time
 	// ownership history (see Poll): task id -> environment it was seen locked by; task ids the core saw ACTIVE
-	EverOwned  map[string]string
-	EverActive map[string]bool
+	EverOwned    map[string]string
+	EverActive   map[string]bool
+	EverInRoster map[string]bool
 }
 
 // NewWorld starts a core (life 1) on top of master m. Call inside a controlled execution.
 func NewWorld(m *Master) *World {
-	w := &World{M: m, EverOwned: map[string]string{}, EverActive: map[string]bool{}}
+	w := &World{M: m, EverOwned: map[string]string{}, EverActive: map[string]bool{}, EverInRoster: map[string]bool{}}
 	m.Observe = w.Poll
 	vrt.OnIdle(w.Poll)
 	w.StartCore()
@@ -287,6 +288,9 @@ func (w *World) Poll() {
 	}
 	for _, t := range w.Core.Taskman.RosterForVerif() {
 		id := t.GetTaskId()
+		if w.EverInRoster != nil {
+			w.EverInRoster[id] = true
+		}
 		if o := t.OwnerForVerif(); o != "" {
 			w.EverOwned[id] = o
 		}
